@@ -339,6 +339,7 @@ jose_openssl_jwk_to_RSA(jose_cfg_t *cfg, const json_t *jwk)
 
     BN_free(N);
     BN_free(E);
+    BN_free(D);
     BN_free(P);
     BN_free(Q);
     BN_free(DP);
